@@ -34,7 +34,7 @@ BOUNDS = {"quick": "refinement: <= 3 hits from a 30-hit menu, all iteration orde
           "thorough": "refinement: <= 5 hits from the full 30-hit menu, 6 hits from a 15-hit sub-menu (5 and 6 hits: rotations + reversal of the set order)"}
 REQUIRED_BUCKETS = {t: ["refine:schedules", "refine:merged-output", "refine:dropped-input", "refine:equal-start-tie",
                         "overlap:dropped", "filter:dropped", "filter:chains"] for t in ("quick", "thorough")}
-LENS = {"A": 40, "B": 100, "regulatorR": 40}
+LENS = {"A": 40, "B": 100, "regulatorR": 40, "Z": 400}
 N_CHUNKS = 32
 
 
@@ -70,6 +70,9 @@ def menu(tier, size):
     # (18 of 40 = 45% against 30 of 100 = 30%): "more complete" is a matter of proportion, not of length
     out.append(("A", 0, 18, 1))
     out.append(("A", 62, 80, 2))
+    # a sliver of a very long profile: the margin towards it is a fifth of ITS length, so it can stand between two hits that
+    # overlap each other far beyond their own margin
+    out.append(("Z", 5, 9, 1))
     if size >= 6 or (size >= 5 and tier != "thorough"):
         out = [h for i, h in enumerate(out) if i % 2 == 0]
     return out
@@ -169,7 +172,7 @@ def _hmmer_hit(h):
 
 
 def check_remove_overlapping(hits, limit=10):
-    cutoffs = {"PFA": 1.0, "PFB": 1.0, "PFregulatorR": 1.0, "PFX": 1.0}
+    cutoffs = {"PFA": 1.0, "PFB": 1.0, "PFregulatorR": 1.0, "PFX": 1.0, "PFZ": 1.0}
     outs = {}
     for perm in itertools.permutations(hits):
         try:
